@@ -74,16 +74,16 @@ def check(ctx):
                     ST + "update_if_outdated",
                     ST + "SettingsContainer.__setattr__",
                     "evo.entry_points.merge_config")
-    _set_config(ctx, prog)
-    _finalize(ctx, prog)
-    _reset(ctx, prog)
-    _upgrade(ctx, prog)
-    _lock(ctx, prog)
-    _merge_config(ctx, prog)
-    _override_order(ctx, prog)
-    _parser_types(ctx, prog)
-    _token_windows(ctx, prog)
-    _generate(ctx, prog)
+    ctx.section(_set_config, ctx, prog)
+    ctx.section(_finalize, ctx, prog)
+    ctx.section(_reset, ctx, prog)
+    ctx.section(_upgrade, ctx, prog)
+    ctx.section(_lock, ctx, prog)
+    ctx.section(_merge_config, ctx, prog)
+    ctx.section(_override_order, ctx, prog)
+    ctx.section(_parser_types, ctx, prog)
+    ctx.section(_token_windows, ctx, prog)
+    ctx.section(_generate, ctx, prog)
 
 
 def _set_config(ctx, prog):
@@ -108,6 +108,23 @@ def _set_config(ctx, prog):
                "config" if ok else
                f"set: config[{fmt(k)}] is written without a membership test "
                f"— unknown parameters can be added", key="C18.1:membership")
+    # a parameter named without value tokens: booleans toggle, others stay
+    tog = [e for e in stores if not any(
+        is_call_to(x, MC + "finalize_values") for x in e.data["value"].walk())]
+    for e in tog:
+        v = e.data["value"]
+        cur = tm.sub(e.data["base"], e.data["index"])
+        ok = v.op == "ite" and is_call_to(v.args[0], "builtins.isinstance") \
+            and v.args[0].args[1][0] is cur and \
+            v.args[0].args[1][1] is tm.glob("builtins.bool") and \
+            v.args[1].op in ("not", "unop") and v.args[1].args[-1] is cur \
+            and v.args[2] is cur
+        ctx.ob("C18.2", e, bool(ok),
+               "set: a bare boolean parameter is toggled, any other bare "
+               "parameter keeps its value" if ok else
+               f"set: a parameter given without value becomes "
+               f"{fmt(v)[:120]} — expected `not current` for booleans and "
+               f"the unchanged value otherwise", key="C18.2:toggle")
     dels = [e for e in r.events if e.kind == "delitem" or (
         e.kind == "call" and e.data.get("mutates_recv") and
         e.data["name"] in (".pop", ".clear", ".popitem"))]
@@ -242,6 +259,50 @@ def _finalize(ctx, prog):
            if ok else f"boolean branch can return "
                       f"{[fmt(v) for v in rets]}",
            key="C18.2:bool", returns=[fmt(v) for v in rets])
+    # ... and the explicit words map to their own value: decision table of
+    # the boolean branch over the atoms token == 'false' / token == 'true'
+    live_rets = [(v, l) for v, l in r.returns if not tm.is_const(l, False)]
+    atoms_ = {a for _, l in live_rets for a in tm.atoms(l)}
+    word = {}
+    flipped = set()
+    for a in atoms_:
+        if a.op == "cmp" and a.args[0] in ("Eq", "NotEq"):
+            for x, y in ((a.args[1], a.args[2]), (a.args[2], a.args[1])):
+                if tm.is_const(y) and y.args[1] in ("false", "true") and \
+                        is_call_to(x, ".lower"):
+                    word[y.args[1]] = a
+                    if a.args[0] == "NotEq":
+                        flipped.add(y.args[1])
+    if set(word) != {"false", "true"}:
+        ctx.undecidable("C18.2", f, f"boolean branch: tests for the words "
+                        f"'true' / 'false' not recognised "
+                        f"({sorted(word)})")
+    else:
+        def leaf(is_false, is_true):
+            def env(t):
+                if t is word["false"]:
+                    return is_false != ("false" in flipped)
+                if t is word["true"]:
+                    return is_true != ("true" in flipped)
+                if is_call_to(t, "builtins.isinstance"):
+                    return True          # the token is a string
+                return None
+            hit = [v for v, l in live_rets if tm.fold(l, env) is True]
+            return hit[0] if len(hit) == 1 else None
+        table = {("false",): leaf(True, False), ("true",): leaf(False, True),
+                 ("other",): leaf(False, False)}
+        ok = tm.is_const(table[("false",)], False) and \
+            tm.is_const(table[("true",)], True) and \
+            table[("other",)] is not None and \
+            table[("other",)].op in ("not", "unop") and \
+            table[("other",)].args[-1] is cfgk
+        ctx.ob("C18.2", f, bool(ok),
+               "boolean parameters: 'false' -> False, 'true' -> True, any "
+               "other token toggles the current value" if ok else
+               f"boolean parameters: token table is "
+               f"{ {k[0]: fmt(v) if v is not None else '?' for k, v in table.items()} }"
+               f" — expected false -> False, true -> True, other -> "
+               f"not current", key="C18.2:bool-words")
     r = run(False, True)
     rets = [v for v, l in r.returns if not tm.is_const(l, False)]
     ok = bool(rets) and all(v is vals or v is T("list") for v in rets)
